@@ -35,7 +35,7 @@ def run_ensemble(rng, obs):
     raw = K.make_cost(spec)
     box = K.gen_box(rng, dim, None, shape='finite')
     if spec[0] in ('plateau', 'step') and rng.random() < 0.7:
-        box = {'lo': [c - 5.0 for c in spec[1]], 'hi': [c + 5.0 for c in spec[1]], 'shape': 'finite'}
+        box = {'lo': [round(c - 5.0, 2) for c in spec[1]], 'hi': [round(c + 5.0, 2) for c in spec[1]], 'shape': 'finite'}
     cons = K.gen_constraint(rng, dim, box) if rng.random() < 0.35 else None
     pen = K.gen_penalty(rng, dim) if rng.random() < 0.3 else None
     maxiter = rng.choice([2, 5, 15, 40]); maxfun = rng.choice([None, None, 60])
